@@ -8,6 +8,8 @@
         uninterp spec fn spec_dec(b: Seq<u8>) -> Option<(File, int)>;
         open spec fn progresses() -> bool { false }
         open spec fn self_delimiting() -> bool { false }
+        open spec fn dec_rel(b: Seq<u8>, v: &File, k: int) -> bool { true }
+        open spec fn dec_total() -> bool { false }
         /// the tag loop is specified by totality and frame clauses only
         open spec fn functional() -> bool { false }
         //@ fn exp:zvt | impl zvt_builder::encoding::Encoding<File> for zvt_builder::encoding::Default | encode | mod=feig::packets::tlv props=C03
@@ -37,6 +39,8 @@
         uninterp spec fn spec_dec(b: Seq<u8>) -> Option<(WriteData, int)>;
         open spec fn progresses() -> bool { false }
         open spec fn self_delimiting() -> bool { false }
+        open spec fn dec_rel(b: Seq<u8>, v: &WriteData, k: int) -> bool { true }
+        open spec fn dec_total() -> bool { false }
         /// the tag loop is specified by totality and frame clauses only
         open spec fn functional() -> bool { false }
         //@ fn exp:zvt | impl zvt_builder::encoding::Encoding<WriteData> for zvt_builder::encoding::Default | encode | mod=feig::packets::tlv props=C03
@@ -66,6 +70,8 @@
         uninterp spec fn spec_dec(b: Seq<u8>) -> Option<(WriteFile, int)>;
         open spec fn progresses() -> bool { false }
         open spec fn self_delimiting() -> bool { false }
+        open spec fn dec_rel(b: Seq<u8>, v: &WriteFile, k: int) -> bool { true }
+        open spec fn dec_total() -> bool { false }
         /// the tag loop is specified by totality and frame clauses only
         open spec fn functional() -> bool { false }
         //@ fn exp:zvt | impl zvt_builder::encoding::Encoding<WriteFile> for zvt_builder::encoding::Default | encode | mod=feig::packets::tlv props=C03
@@ -95,6 +101,8 @@
         uninterp spec fn spec_dec(b: Seq<u8>) -> Option<(HostConfigurationData, int)>;
         open spec fn progresses() -> bool { false }
         open spec fn self_delimiting() -> bool { false }
+        open spec fn dec_rel(b: Seq<u8>, v: &HostConfigurationData, k: int) -> bool { true }
+        open spec fn dec_total() -> bool { false }
         /// the tag loop is specified by totality and frame clauses only
         open spec fn functional() -> bool { false }
         //@ fn exp:zvt | impl zvt_builder::encoding::Encoding<HostConfigurationData> for zvt_builder::encoding::Default | encode | mod=feig::packets::tlv props=C03
@@ -124,6 +132,8 @@
         uninterp spec fn spec_dec(b: Seq<u8>) -> Option<(SystemInformation, int)>;
         open spec fn progresses() -> bool { false }
         open spec fn self_delimiting() -> bool { false }
+        open spec fn dec_rel(b: Seq<u8>, v: &SystemInformation, k: int) -> bool { true }
+        open spec fn dec_total() -> bool { false }
         /// the tag loop is specified by totality and frame clauses only
         open spec fn functional() -> bool { false }
         //@ fn exp:zvt | impl zvt_builder::encoding::Encoding<SystemInformation> for zvt_builder::encoding::Default | encode | mod=feig::packets::tlv props=C03
@@ -153,6 +163,8 @@
         uninterp spec fn spec_dec(b: Seq<u8>) -> Option<(ChangeConfiguration, int)>;
         open spec fn progresses() -> bool { false }
         open spec fn self_delimiting() -> bool { false }
+        open spec fn dec_rel(b: Seq<u8>, v: &ChangeConfiguration, k: int) -> bool { true }
+        open spec fn dec_total() -> bool { false }
         /// the tag loop is specified by totality and frame clauses only
         open spec fn functional() -> bool { false }
         //@ fn exp:zvt | impl zvt_builder::encoding::Encoding<ChangeConfiguration> for zvt_builder::encoding::Default | encode | mod=feig::packets::tlv props=C03
